@@ -18,6 +18,8 @@ import (
 // parent's executions and all subtrees is exactly the tree the in-process explorer walks.
 
 type task struct {
+	From     int   `json:"f,omitempty"` // From<To: explore the children Prefix+[alt] for alt in [From,To)
+	To       int   `json:"t,omitempty"`
 	Prefix   []int `json:"p"`
 	Cost     int   `json:"c"`
 	Deadline int64 `json:"d"` // unix nanoseconds, 0 = none
@@ -72,7 +74,14 @@ func Serve(body Body, opt Options, in io.Reader, out io.Writer) {
 			e.st.Counters = map[string]int64{}
 			e.st.PointsByKind = map[string]int64{}
 			e.st.BySig = map[string]int64{}
-			e.below(t.Prefix, t.Cost)
+			if t.To > t.From {
+				for alt := t.From; alt < t.To; alt++ {
+					child := append(append([]int(nil), t.Prefix...), alt)
+					e.explore(child, t.Cost)
+				}
+			} else {
+				e.below(t.Prefix, t.Cost)
+			}
 			e.st.Executions = e.execs.Load()
 			e.st.States = int64(len(e.states))
 			e.st.Exhaustive = !e.capped.Load()
@@ -278,6 +287,14 @@ func RunSharded(body Body, opt Options, argv []string, env []string) Stats {
 				tasks <- task{Prefix: c.Choices()[:opt.SplitLen], Cost: cost, Deadline: dl, Bound: opt.Bound}
 			}
 		}
+		if dl != 0 && time.Now().UnixNano() > dl {
+			for i := len(prefix); i < len(c.Points) && i < opt.SplitLen; i++ {
+				if c.Points[i].N > 1 {
+					e.capped.Store(true)
+				}
+			}
+			return
+		}
 		for i := len(prefix); i < len(c.Points) && i < opt.SplitLen; i++ {
 			p := c.Points[i]
 			if p.N <= 1 {
@@ -285,6 +302,19 @@ func RunSharded(body Body, opt Options, argv []string, env []string) Stats {
 			}
 			pc := opt.Cost(p.Kind)
 			if pc > 0 && cost+pc > opt.Bound {
+				continue
+			}
+			if i == opt.SplitLen-1 {
+				// last split level: the children themselves are executed by the workers
+				base := c.Choices()[:i]
+				step := (p.N-1)/(4*opt.Workers) + 1
+				for from := 1; from < p.N; from += step {
+					to := from + step
+					if to > p.N {
+						to = p.N
+					}
+					tasks <- task{Prefix: base, From: from, To: to, Cost: cost + pc, Deadline: dl, Bound: opt.Bound}
+				}
 				continue
 			}
 			for alt := 1; alt < p.N; alt++ {
